@@ -206,17 +206,17 @@ class WindowedCoordinator:
 
                 # Latency override
                 if link.latency is not None:
-                    sampled = link.latency.sample()
-                    event.time = send_time + sampled
-                else:
-                    # Validate min_latency
-                    delay = (event.time - send_time).to_seconds()
-                    if delay < link.min_latency - 1e-12:
-                        raise RuntimeError(
-                            f"Cross-partition event violates min_latency: "
-                            f"delay={delay:.6f}s < min_latency={link.min_latency}s "
-                            f"(event={event!r}, link={source_name}→{dest_name})"
-                        )
+                    event.time = send_time + link.latency.get_latency(send_time)
+
+                # Validate min_latency (for sampled and sender-stamped times alike:
+                # an earlier arrival could land behind the destination's clock)
+                delay = (event.time - send_time).to_seconds()
+                if delay < link.min_latency - 1e-12:
+                    raise RuntimeError(
+                        f"Cross-partition event violates min_latency: "
+                        f"delay={delay:.6f}s < min_latency={link.min_latency}s "
+                        f"(event={event!r}, link={source_name}→{dest_name})"
+                    )
 
                 # Inject into destination partition
                 self._simulations[dest_name].schedule(event)
